@@ -13,7 +13,7 @@ from .contracts import REGISTRY, LEMMAS
 from .engine import Exec, Unsupported, SpecDrift, solve, Obligation, State
 from .source import Repo, normalized_hash
 
-SPEC_MODULES = ["specs.heap", "specs.graph", "specs.supervised", "specs.semi", "specs.knn"]
+SPEC_MODULES = ["specs.heap", "specs.graph", "specs.supervised", "specs.semi", "specs.knn", "specs.arcs"]
 
 
 def load_specs():
@@ -115,6 +115,8 @@ def verify_lemma(repo, lem):
     ex.obl_names = {}
     ex.names = {}
     ex.defs = []
+    ex._verify_ns = set()
+    ex._verify_keep = []
     st = State()
     from .engine import wrap
     args = {}
